@@ -299,11 +299,11 @@ def segOutcome (c : Cls) (tr : List Trans) (st : IStream) (stype : BitVec 32)
   if (match c with | .c32 => seg32_load_data_skip stype filesz | .c64 => seg64_load_data_skip stype filesz)
   then none else
   let off := secOff tr offset
-  if (match c with | .c32 => seg32_load_data_off_gt off streamSize | .c64 => seg64_load_data_off_gt off streamSize)
+  if (match c with | .c32 => seg32_range_off_gt off streamSize | .c64 => seg64_range_off_gt off streamSize)
   then some none else
-  if (match c with | .c32 => seg32_load_data_size_gt filesz streamSize off
-                   | .c64 => seg64_load_data_size_gt filesz streamSize off) then some none else
-  if (match c with | .c32 => seg32_load_data_sizet filesz | .c64 => seg64_load_data_sizet filesz)
+  if (match c with | .c32 => seg32_range_size_gt filesz streamSize off
+                   | .c64 => seg64_range_size_gt filesz streamSize off) then some none else
+  if (match c with | .c32 => seg32_range_sizet filesz | .c64 => seg64_range_sizet filesz)
   then some none else
   if !(segReadSt st off filesz).1.fail then some (some (segReadSt st off filesz).2) else some none
 
@@ -314,7 +314,8 @@ def segApply (g : Seg) : Option (Option Bytes) → Seg × Bool
 
 theorem segLoadData_snd (c : Cls) (tr : List Trans) (ls : LoadSt) (g : Seg) :
     (segLoadData c tr ls g).2 = segApply g (segOutcome c tr ls.st g.stype g.filesz g.offset g.streamSize) := by
-  unfold segLoadData segOutcome secOff segReadSt
+  rw [LoadTie.segLoadData_flat]
+  unfold segOutcome secOff segReadSt
   cases c <;> simp only [LoadTie.segDataOk_val, LoadTie.segSeekTo_val, LoadTie.segReadN_val] <;>
    (split
     · rfl
@@ -346,13 +347,13 @@ theorem segOutcome_indep (c : Cls) (tr : List Trans) (s s' : IStream) (hd : s.da
 
 @[simp] theorem segLoadData_data (c : Cls) (tr : List Trans) (ls : LoadSt) (g : Seg) :
     (segLoadData c tr ls g).1.st.data = ls.st.data := by
-  unfold segLoadData
+  rw [LoadTie.segLoadData_flat]
   simp only []
   repeat' split
   all_goals simp
 @[simp] theorem segLoadData_kind (c : Cls) (tr : List Trans) (ls : LoadSt) (g : Seg) :
     (segLoadData c tr ls g).1.st.kind = ls.st.kind := by
-  unfold segLoadData
+  rw [LoadTie.segLoadData_flat]
   simp only []
   repeat' split
   all_goals simp
@@ -438,10 +439,10 @@ theorem segLoad_eq_ls (c : Cls) (enc : Enc) (tr : List Trans) (ls : LoadSt) (hdr
       let h := hdrRead_ls tr ls.st hdrOff (phdrSize c)
       let g := decodePhdr c enc (wr (List.replicate (phdrSize c) 0) 0 h.2.1) (segInit_ls h.2.2 isLazy)
       let ls1 : LoadSt := { ls with st := h.1 }
-      if isLazy then (ls1, g, true) else segLoadData c tr ls1 g := by
+      if isLazy then (ls1, g, segRangeOk c tr g) else segLoadData c tr ls1 g := by
   rw [LoadTie.segLoad_hand]
   unfold hdrRead_ls segInit_ls
-  simp only [decodePhdr_isLoaded_ls]
+  simp only [decodePhdr_isLoaded_ls, Bool.false_or]
   cases isLazy <;> rfl
 
 theorem segGetData_eq_ls (c : Cls) (tr : List Trans) (ls : LoadSt) (g : Seg) :
@@ -821,13 +822,13 @@ theorem segLoadData_eq_ls (c : Cls) (tr : List Trans) (ls : LoadSt) (g : Seg) :
     segLoadData c tr ls g =
       if (match c with | .c32 => seg32_load_data_skip g.stype g.filesz | .c64 => seg64_load_data_skip g.stype g.filesz)
       then (ls, g, true) else
-      if (match c with | .c32 => seg32_load_data_off_gt (secOff tr g.offset) g.streamSize
-                       | .c64 => seg64_load_data_off_gt (secOff tr g.offset) g.streamSize)
+      if (match c with | .c32 => seg32_range_off_gt (secOff tr g.offset) g.streamSize
+                       | .c64 => seg64_range_off_gt (secOff tr g.offset) g.streamSize)
       then (ls, { g with data := none }, false) else
-      if (match c with | .c32 => seg32_load_data_size_gt g.filesz g.streamSize (secOff tr g.offset)
-                       | .c64 => seg64_load_data_size_gt g.filesz g.streamSize (secOff tr g.offset))
+      if (match c with | .c32 => seg32_range_size_gt g.filesz g.streamSize (secOff tr g.offset)
+                       | .c64 => seg64_range_size_gt g.filesz g.streamSize (secOff tr g.offset))
       then (ls, { g with data := none }, false) else
-      if (match c with | .c32 => seg32_load_data_sizet g.filesz | .c64 => seg64_load_data_sizet g.filesz)
+      if (match c with | .c32 => seg32_range_sizet g.filesz | .c64 => seg64_range_sizet g.filesz)
       then (ls, { g with data := none }, false) else
       let r := segReadSt ls.st (secOff tr g.offset) g.filesz
       let n : BitVec 64 := match c with
@@ -836,7 +837,8 @@ theorem segLoadData_eq_ls (c : Cls) (tr : List Trans) (ls : LoadSt) (g : Seg) :
       let ls' : LoadSt := { st := mergeFlags_ls ls.st r.1, allocs := ls.allocs ++ [n.toNat] }
       if !r.1.fail then (ls', { g with data := some (r.2 ++ [0]), isLoaded := true }, true)
       else (ls', { g with data := none }, false) := by
-  unfold segLoadData segReadSt secOff mergeFlags_ls
+  rw [LoadTie.segLoadData_flat]
+  unfold segReadSt secOff mergeFlags_ls
   cases c <;> simp only [LoadTie.segDataOk_val, LoadTie.segSeekTo_val, LoadTie.segReadN_val] <;>
    (split
     · rfl
@@ -860,8 +862,8 @@ theorem segLoadData_inside (c : Cls) (ls : LoadSt) (g : Seg)
   have hs' : seg32_load_data_skip g.stype g.filesz = false := hs
   unfold segSkip at hs
   rw [segLoadData_eq_ls]
-  simp only [secOff_nil, hss, hs, hs', seg32_load_data_off_gt, seg64_load_data_off_gt, seg32_load_data_size_gt,
-    seg64_load_data_size_gt, seg32_load_data_sizet, seg64_load_data_sizet, gd.1, gd.2.1, gd.2.2,
+  simp only [secOff_nil, hss, hs, hs', seg32_range_off_gt, seg64_range_off_gt, seg32_range_size_gt,
+    seg64_range_size_gt, seg32_range_sizet, seg64_range_sizet, gd.1, gd.2.1, gd.2.2,
     segReadSt_inside ls.st g.offset g.filesz hin h63]
   cases c <;> simp [mergeFlags_ls, IStream.clear]
 
@@ -871,6 +873,26 @@ theorem segLoadData_skip (c : Cls) (tr : List Trans) (ls : LoadSt) (g : Seg) (hs
   unfold segSkip at hs
   rw [segLoadData_eq_ls]
   cases c <;> simp [hs, hs']
+
+/-- `segment_impl::is_file_range_valid()` in the vocabulary of this file -/
+theorem segRangeOk_ls (c : Cls) (tr : List Trans) (g : Seg) :
+    segRangeOk c tr g =
+      (if segSkip g then true else
+       if sec64_load_data_off_gt (secOff tr g.offset) g.streamSize then false else
+       if sec64_load_data_size_gt g.filesz g.streamSize (secOff tr g.offset) then false else
+       if sec64_load_data_sizet g.filesz then false else true) :=
+  LoadTie.segRangeOk_hand c tr g
+
+/-- the range test accepts a segment whose file range is inside the file -/
+theorem segRangeOk_inside (c : Cls) (g : Seg) (len : Nat)
+    (hss : g.streamSize = BitVec.ofNat 64 len) (h63 : len < 9223372036854775808)
+    (hin : SegInside len g) : segRangeOk c [] g = true := by
+  rw [segRangeOk_ls]
+  cases hs : segSkip g
+  · have gd := guards_inside g.offset g.filesz _ h63 (hin hs)
+    simp only [secOff_nil, hss, sec64_load_data_off_gt, sec64_load_data_size_gt, sec64_load_data_sizet,
+      gd.1, gd.2.1, gd.2.2, Bool.false_eq_true, if_false]
+  · simp
 
 /-- resident data of a segment whose file range is inside the image -/
 def segData (img : Bytes) (g : Seg) : Option Bytes :=
@@ -917,6 +939,7 @@ theorem segLoad_inside (c : Cls) (enc : Enc) (ls : LoadSt) (k : Nat) (isLazy : B
       rw [hg] at h1 h2
       simp_all
   · simp only [if_true, Bool.not_true, Bool.false_and]
+    rw [segRangeOk_inside c _ ls.st.data.length (by simp [segHdr_ls, segInit_ls]) h63 hin]
     refine ⟨?_, by simp [he, hf]⟩
     congr 1
     cases hg : segHdr_ls c enc ls.st.data k true
@@ -1755,9 +1778,23 @@ theorem segLoadData_rep (c : Cls) (tr : List Trans) (img : Bytes) (ls : LoadSt) 
   have hs' : seg32_load_data_skip g.stype g.filesz = false := hs
   unfold segSkip at hs
   rw [segLoadData_eq_ls]
-  simp only [hss, hs, hs', seg32_load_data_off_gt, seg64_load_data_off_gt, seg32_load_data_size_gt,
-    seg64_load_data_size_gt, seg32_load_data_sizet, seg64_load_data_sizet, gd.1, gd.2.1, gd.2.2, hrd]
+  simp only [hss, hs, hs', seg32_range_off_gt, seg64_range_off_gt, seg32_range_size_gt,
+    seg64_range_size_gt, seg32_range_sizet, seg64_range_sizet, gd.1, gd.2.1, gd.2.2, hrd]
   cases c <;> simp [mergeFlags_ls, IStream.clear]
+
+/-- the range test accepts a segment whose file range the table maps into the container -/
+theorem segRangeOk_rep (c : Cls) (tr : List Trans) (cont img : Bytes) (g : Seg)
+    (hss : g.streamSize = ssOf tr cont.length)
+    (h63c : cont.length < 9223372036854775808) (h63i : img.length < 9223372036854775808)
+    (hin : SegRep cont tr img g) : segRangeOk c tr g = true := by
+  rw [segRangeOk_ls]
+  cases hs : segSkip g
+  · obtain ⟨h0, h1, h2, h3⟩ := hin hs
+    have hto := secOff_toNat tr g.offset (by omega) h0 (by omega)
+    have gd := guards_rep tr cont.length (secOff tr g.offset) g.filesz h63c (by rw [hto]; exact h1)
+    simp only [hss, sec64_load_data_off_gt, sec64_load_data_size_gt, sec64_load_data_sizet,
+      gd.1, gd.2.1, gd.2.2, Bool.false_eq_true, if_false]
+  · simp
 
 /-- **`segment_impl::load` through a translation table** -/
 theorem segLoad_rep (c : Cls) (enc : Enc) (tr : List Trans) (img : Bytes) (ls : LoadSt) (k : Nat) (isLazy : Bool)
@@ -1797,6 +1834,7 @@ theorem segLoad_rep (c : Cls) (enc : Enc) (tr : List Trans) (img : Bytes) (ls : 
       rw [hg] at hd0 hl0
       simp_all
   · simp only [if_true, Bool.not_true, Bool.false_and]
+    rw [segRangeOk_rep c tr ls.st.data img (segHdrT c enc tr ls.st.data.length img k true) rfl h63c h63i hin]
     refine ⟨?_, by simp [he, hf]⟩
     congr 1
     cases hg : segHdrT c enc tr ls.st.data.length img k true
